@@ -4,9 +4,10 @@
 package proc
 
 import (
-	"strings"
 	"fmt"
 	"strconv"
+	"strings"
+	"unicode/utf8"
 )
 
 type Type int
@@ -374,6 +375,14 @@ func QuoteStr(s string) string {
 	out := "'"
 	for i := 0; i < len(s); i++ {
 		c := s[i]
+		if c >= 0x80 {
+			// a well-formed character is written as it is (\xHH names a code point, not a byte)
+			if rn, sz := utf8.DecodeRuneInString(s[i:]); rn != utf8.RuneError && sz > 1 {
+				out += s[i : i+sz]
+				i += sz - 1
+				continue
+			}
+		}
 		switch {
 		case c == '\'' || c == '\\':
 			out += "\\" + string(c)
